@@ -357,6 +357,9 @@ def _(e, c, a, raw):
 def _(e, c, a, raw):
     v = deref(e, a[0])
     if isinstance(v, Str): return v
+    if isinstance(v, EnumV) and v.ty == 'Cow':
+        inner = v.slots[0]
+        return inner if isinstance(inner, (Ref, Str)) else Ref(v.slots, [0])
     return e.deref1(a[0]) if isinstance(a[0], Ref) else a[0]
 @model('re:^<.* as ToOwned>::to_owned$')
 def _(e, c, a, raw):
@@ -437,3 +440,17 @@ def _(e, c, a, raw):
     return EnumV('Cow', 'Borrowed', [v.payload]) if c.endswith('lossy') else v
 @model('re:^<(std::path::)?(PathBuf|Path) as PartialEq>::eq$')
 def _(e, c, a, raw): return veq(e, a[0], a[1])
+
+# ---- Cow --------------------------------------------------------------------------------------------
+@model('re:^<Cow<.*> as Deref>::deref$', 're:^<Cow<.*> as AsRef<.*>>::as_ref$', 're:^<Cow<.*> as Borrow<.*>>::borrow$')
+def _(e, c, a, raw):
+    v = deref(e, a[0])
+    inner = v.slots[0]
+    if isinstance(inner, Ref): return inner
+    if isinstance(inner, (Str,)): return inner
+    return Ref(v.slots, [0])
+@model('Cow::into_owned', 're:^Cow::<.*>::into_owned$', 're:^<Cow<.*> as Clone>::clone$', 'Cow::to_mut')
+def _(e, c, a, raw):
+    v = deref(e, a[0])
+    if c.endswith('clone'): return clone_val(e, v)
+    return clone_val(e, e.deref(v.slots[0]))
